@@ -1,6 +1,11 @@
 SPECIFICATION Spec
 CONSTANTS NB = 4
  ND = 3
+ NE = 2
  Tx <- McTx
+ TxEp <- McTxEp
+ PruneFirst = FALSE
 INVARIANT PoolIsOffChain
+INVARIANT HeadOK
+INVARIANT UnconfCached
 CHECK_DEADLOCK FALSE
